@@ -24,7 +24,8 @@
 (*   invalid   a FILE-LIST with an invalid name somewhere                  *)
 (*   match     a prepared tree (regular files, directories, symbolic links)*)
 (*             x options x pruning / selection                             *)
-(*   given     as match, for trees read from a file (randomised tier)      *)
+(*   given     as match, for trees read from a file (randomised tier);     *)
+(*             givenlist: as populate, for FILE-LISTs read from a file     *)
 (*   exists    a prepared tree x a path, for the `exists` instruction      *)
 (*   names     a file name text, for name / stem / suffixes / suffix       *)
 (***************************************************************************)
@@ -38,7 +39,9 @@ CONSTANTS
   ExtraMod, ExtraPick,   \* the slice: index % ExtraMod = ExtraPick
   LeafKinds,    \* kinds a leaf of a prepared tree may have: subset of {"f","g","d","lf","ld","lb"}
   MaxLinks,     \* at most this many symbolic links per prepared tree
-  MaxEntries,   \* FILE-LISTs with at most this many entries (nested entries counted)
+  MaxEntries,   \* FILE-LISTs with at most this many entries (nested entries counted) ...
+  ListMod, ListPick,     \* ... of those with exactly MaxEntries entries the slice hash % ListMod = ListPick
+  MaxTail,      \* ... of those that fail: at most this many entries after the failing one
   MaxNameLen,   \* names family: texts over {a, b, .} up to this length
   WrapLevel,    \* 1: the basic pruning / selection combinations, 2: all of them
   Families,     \* scenario families explored by this run
@@ -259,6 +262,14 @@ Leaves == FileLeaves(PNames) \cup DirLeaves(PNames)
 DirOf(L) == {Entry("dir", n, m, "list", l) : n \in PNames, m \in {"set", "app"}, l \in L}
 ConsAll(E, L) == {<<e>> \o l : e \in E, l \in L}
 
+RECURSIVE ListHash(_)
+ListHash(l) == IF l = <<>> THEN 1
+               ELSE LET e == Head(l)
+                    IN (Len(e.name) + 2 * (IF e.name = <<>> THEN 0 ELSE e.name[1]) + (IF e.t = "file" THEN 3 ELSE 0)
+                        + (IF e.mod = "app" THEN 5 ELSE IF e.mod = "set" THEN 11 ELSE 0)
+                        + (IF e.src = "copy" THEN 13 ELSE 0)
+                        + 7 * ListHash(e.sub) + 31 * ListHash(Tail(l))) % 10007
+
 \* lists with exactly s entries (nested entries counted); written out so that TLC computes each set once
 L0 == {<<>>}
 L1 == IF "populate" \in Families THEN ConsAll(Leaves, L0) ELSE {}
@@ -266,16 +277,11 @@ L2 == IF MaxEntries < 2 THEN {} ELSE ConsAll(Leaves, L1) \cup ConsAll(DirOf(L1),
 L3 == IF MaxEntries < 3 THEN {} ELSE ConsAll(Leaves, L2) \cup ConsAll(DirOf(L1), L1) \cup ConsAll(DirOf(L2), L0)
 L4 == IF MaxEntries < 4 THEN {} ELSE ConsAll(Leaves, L3) \cup ConsAll(DirOf(L1), L2) \cup ConsAll(DirOf(L2), L1)
                                      \cup ConsAll(DirOf(L3), L0)
-AllLists == IF "populate" \in Families THEN L0 \cup L1 \cup L2 \cup L3 \cup L4 ELSE {}
+Sliced(s, L) == IF s < MaxEntries THEN L ELSE {l \in L : ListHash(l) % ListMod = ListPick}
+AllLists == IF "populate" \in Families
+            THEN L0 \cup Sliced(1, L1) \cup Sliced(2, L2) \cup Sliced(3, L3) \cup Sliced(4, L4) ELSE {}
 
 TopEntry(mod, src, l) == Entry("dir", D, mod, src, l)
-\* the instruction: `dir D = { list }` on a fresh place for every list; the other forms for the short lists
-PopScenarios ==
-  {[top |-> TopEntry("set", "list", l), pre |-> FALSE] : l \in AllLists}
-  \cup {[top |-> TopEntry(m, "list", l), pre |-> pr] : m \in {"set", "app"}, pr \in BOOLEAN, l \in L0 \cup L1}
-  \cup {[top |-> TopEntry(m, "copy", <<>>), pre |-> pr] : m \in {"set", "app"}, pr \in BOOLEAN}
-  \cup {[top |-> TopEntry("none", "none", <<>>), pre |-> pr] : pr \in BOOLEAN}
-
 \* lists with an invalid name: alone, before / after an entry that works or that fails, and nested
 BadLeaves == {Entry("file", n, "none", "none", <<>>) : n \in BadNames}
              \cup {Entry("file", n, "app", "text", <<>>) : n \in BadNames}
@@ -292,14 +298,6 @@ BadScenarios == {[top |-> TopEntry("set", "list", l), pre |-> FALSE] : l \in Bad
 RECURSIVE NamesOf(_)
 NamesOf(l) == IF l = <<>> THEN {} ELSE {Head(l).name} \cup NamesOf(Head(l).sub) \cup NamesOf(Tail(l))
 InvalidName(n) == n = <<>> \/ \E i \in 1..Len(n) : n[i] \in {DotDot, AbsMark}
-
-RECURSIVE ListHash(_)
-ListHash(l) == IF l = <<>> THEN 1
-               ELSE LET e == Head(l)
-                    IN (Len(e.name) + 2 * (IF e.name = <<>> THEN 0 ELSE e.name[1]) + (IF e.t = "file" THEN 3 ELSE 0)
-                        + (IF e.mod = "app" THEN 5 ELSE IF e.mod = "set" THEN 11 ELSE 0)
-                        + (IF e.src = "copy" THEN 13 ELSE 0)
-                        + 7 * ListHash(e.sub) + 31 * ListHash(Tail(l))) % 10007
 
 \* the directory copied by `dir-contents-of`:  a (file "8"),  b/  b/a (file "8")
 SrcTree == (<<1>> :> FileNode(<<8>>)) @@ (<<2>> :> DirNode) @@ (<<2, 1>> :> FileNode(<<8>>))
@@ -363,6 +361,22 @@ Denotation(s) ==
   ELSE LET st == DenList(<<s.top>>, <<>>, [tree |-> InitialTree(s.pre), n |-> 0, ok |-> TRUE, exact |-> TRUE])
        IN [res |-> IF st.ok THEN "PASS" ELSE "HARD_ERROR", tree |-> st.tree, exact |-> st.exact]
 
+RECURSIVE NEntries(_)
+NEntries(l) == IF l = <<>> THEN 0 ELSE 1 + NEntries(Head(l).sub) + NEntries(Tail(l))
+\* A list that fails long before its end behaves as its prefix does: of the failing lists those are explored in
+\* which at most MaxTail entries follow the failing one (they must not be applied).
+StopsLate(s) ==
+  LET st == DenList(<<s.top>>, <<>>, [tree |-> InitialTree(s.pre), n |-> 0, ok |-> TRUE, exact |-> TRUE])
+  IN st.ok \/ st.n + MaxTail >= NEntries(<<s.top>>)
+\* the instruction: `dir D = { list }` on a fresh place for every list; the other forms for the short lists
+PopScenarios == {s \in
+  {[top |-> TopEntry("set", "list", l), pre |-> FALSE] : l \in AllLists}
+  \cup {[top |-> TopEntry(m, "list", l), pre |-> pr] : m \in {"set", "app"}, pr \in BOOLEAN,
+                                                        l \in L0 \cup (IF MaxEntries > 1 THEN L1 ELSE {})}
+  \cup {[top |-> TopEntry(m, "copy", <<>>), pre |-> pr] : m \in {"set", "app"}, pr \in BOOLEAN}
+  \cup {[top |-> TopEntry("none", "none", <<>>), pre |-> pr] : pr \in BOOLEAN}
+  : StopsLate(s)}
+
 \* ---------------------------------------------------------------------------------------------
 \* prepared trees
 \* ---------------------------------------------------------------------------------------------
@@ -391,7 +405,10 @@ MaxDepth(t) == IF Under(t, D) = {} THEN 0 ELSE Max({DepthIn(D, p) : p \in Under(
 \* -recursive with every combination of limits up to one more than the deepest level of the tree
 Limits(t)  == {-1} \cup 0..(MaxDepth(t) + 1)
 AllOpts(t) == <<NonRec>> \o SetToSeq({Opt(TRUE, a, b) : a \in Limits(t), b \in Limits(t)})
-FewOpts    == <<NonRec, RecAll, Opt(TRUE, 1, -1), Opt(TRUE, -1, 0), Opt(TRUE, -1, 1), Opt(TRUE, 1, 1)>>
+\* with pruning: the limits that interact with it; with selection only (a filter on what is generated): three
+PruneOpts  == <<RecAll, Opt(TRUE, 1, -1), Opt(TRUE, -1, 1), Opt(TRUE, 1, 1)>>
+MoreOpts   == <<NonRec, Opt(TRUE, -1, 0), Opt(TRUE, 2, -1), Opt(TRUE, 0, 2)>>
+SelOpts    == <<NonRec, RecAll, Opt(TRUE, 1, 1)>>
 FlatOpts   == <<NonRec, RecAll>>
 
 \* pruning and selection matchers (they give T or F wherever they are applied)
@@ -416,7 +433,7 @@ Wraps == IF WrapLevel >= 2 THEN WrapsBasic \o WrapsMore ELSE WrapsBasic
 \* ---- trees read from a file (randomised tier): records [nodes: Seq([p, k]), opt: [rec, min, max], wi] ------
 GivenSeq == IF "given" \in Families THEN ndJsonDeserialize(IOEnv.VERIF_GIVEN) ELSE <<>>
 GivenTree(g) == (D :> DirNode) @@ [p \in {g.nodes[i].p : i \in 1..Len(g.nodes)} |->
-                                     NodeOfKind((CHOOSE i \in 1..Len(g.nodes) : g.nodes[i].p = p).k)]
+                                     NodeOfKind(g.nodes[CHOOSE i \in 1..Len(g.nodes) : g.nodes[i].p = p].k)]
 
 \* ---- exists family --------------------------------------------------------------------------
 Single(kd)       == (D :> DirNode) @@ (<<DName, 1>> :> NodeOfKind(kd))
@@ -451,7 +468,7 @@ Idle == /\ stack = <<>> /\ cnt = 0 /\ result = "-" /\ exact = TRUE
 InitPopulate ==
   /\ fam \in {"populate", "invalid"} \cap Families
   /\ sc \in (IF fam = "populate" THEN PopScenarios ELSE BadScenarios)
-  /\ InShard(ListHash(sc.top.sub) + (IF sc.pre THEN 1 ELSE 0))
+  /\ InShard((ListHash(sc.top.sub) \div ListMod) + (IF sc.pre THEN 1 ELSE 0))
   /\ tree = InitialTree(sc.pre)
   /\ phase = "validate" /\ Idle
 
@@ -461,11 +478,22 @@ InitMatch ==
        /\ tree = TreeOf(ns)
        /\ \E wi \in 1..Len(Wraps) :
             LET os == IF wi = 1 THEN AllOpts(tree)
-                      ELSE IF MaxDepth(tree) >= 1 \/ WrapLevel >= 2 THEN FewOpts
-                      ELSE IF Wraps[wi].pr = <<>> THEN FlatOpts ELSE <<>>
+                      ELSE IF MaxDepth(tree) = 0 THEN (IF Wraps[wi].pr = <<>> THEN FlatOpts ELSE <<>>)
+                      ELSE IF Wraps[wi].pr = <<>> THEN SelOpts
+                      ELSE IF WrapLevel >= 2 THEN PruneOpts \o MoreOpts ELSE PruneOpts
             IN \E oi \in 1..Len(os) : /\ InShard(TreeHash(ns) + 3 * wi + oi)
                                       /\ sc = [opt |-> os[oi], wi |-> wi]
   /\ phase = "idle" /\ Idle
+
+\* FILE-LISTs read from a file (randomised tier): records [top: the entry `dir D ...`, pre]
+GivenLists == IF "givenlist" \in Families THEN ndJsonDeserialize(IOEnv.VERIF_GIVEN_LISTS) ELSE <<>>
+InitGivenList ==
+  /\ "givenlist" \in Families /\ fam = "populate"
+  /\ \E gi \in 1..Len(GivenLists) :
+       /\ InShard(gi)
+       /\ sc = [top |-> GivenLists[gi].top, pre |-> GivenLists[gi].pre, gi |-> gi]
+  /\ tree = InitialTree(sc.pre)
+  /\ phase = "validate" /\ Idle
 
 InitGiven ==
   /\ fam = "given" /\ fam \in Families
@@ -487,7 +515,7 @@ InitNames ==
   /\ tree = (D :> DirNode) @@ (<<DName, ScName>> :> FileNode(<<>>))
   /\ phase = "idle" /\ Idle
 
-Init == InitPopulate \/ InitMatch \/ InitGiven \/ InitExists \/ InitNames
+Init == InitPopulate \/ InitMatch \/ InitGiven \/ InitGivenList \/ InitExists \/ InitNames
 
 \* ---------------------------------------------------------------------------------------------
 \* Populate
@@ -643,6 +671,8 @@ Verdict(m) == EvalFs(m, tree, BaseCtx)
 QuantFms == << FmType("file"), FmType("symlink"), FmName(1), FmContents(TmEmpty),
                FmAnd(FmType("dir"), FmDirContents(NonRec, FsEmpty)), FmDirContents(RecAll, FsNum(">=", 1)) >>
 
+\* all of them on the plain model, two of them when the model is pruned / selected
+Quants == IF TheWrap.pr = <<>> /\ TheWrap.se = <<>> THEN QuantFms ELSE <<QuantFms[1], QuantFms[4]>>
 CoreProbes ==
   LET F     == F0
       rels  == Rels(F)
@@ -664,8 +694,8 @@ CoreProbes ==
          << [id |-> "full-minus",  m |-> FsMatches(TRUE, Plain(minus))],
             [id |-> "typed-wrong", m |-> FsMatches(TRUE, WrongAt(Typed(rels), Len(rels)))],
             [id |-> "sub-wrong",   m |-> FsMatches(FALSE, WrongAt(Typed(one), 1))] >>)
-     \o [i \in 1..Len(QuantFms) |-> [id |-> "every", m |-> FsEvery(QuantFms[i])]]
-     \o [i \in 1..Len(QuantFms) |-> [id |-> "any", m |-> FsAny(QuantFms[i])]]
+     \o [i \in 1..Len(Quants) |-> [id |-> "every", m |-> FsEvery(Quants[i])]]
+     \o [i \in 1..Len(Quants) |-> [id |-> "any", m |-> FsAny(Quants[i])]]
 
 WithVerdicts(ps, Wr(_), tag) ==
   [i \in 1..Len(ps) |-> [id |-> ps[i].id \o tag, neg |-> FALSE, m |-> Wr(ps[i].m), exp |-> Verdict(Wr(ps[i].m))]]
@@ -765,9 +795,9 @@ FullIsExact ==
      IN \A i \in 1..Len(ps) : FixedVerdict(ps[i].id) \in {"-", ps[i].exp}
 QuantifierDuality ==
   (Matched /\ fam # "populate") =>
-     \A i \in 1..Len(QuantFms) :
-        LET e == Verdict(WrapA(FsEvery(QuantFms[i])))
-            a == Verdict(WrapA(FsAny(FmNot(QuantFms[i]))))
+     \A i \in 1..Len(Quants) :
+        LET e == Verdict(WrapA(FsEvery(Quants[i])))
+            a == Verdict(WrapA(FsAny(FmNot(Quants[i]))))
         IN (e \in {"T", "F"} /\ a \in {"T", "F"}) => e = Not4(a)
 \* what a FILE-LIST builds satisfies the description of the tree it denotes
 PopulateThenMatchRoundTrip ==
